@@ -68,6 +68,10 @@ func (r *Run) checkSpeciatePartition(label string) {
 		if ip.End != "back" {
 			continue
 		}
+		if pathContradictsNil(ip) {
+			// not an execution: e.g. an expanded helper's fresh error result continuing on the caller's `err == nil` side
+			continue
+		}
 		nBack++
 		var creates []ssa.CallInstruction
 		var adds []*memberAdd // addOrganism calls, or the helper's append written in place
@@ -392,6 +396,11 @@ func C08(p *Prog, r *Run) {
 		back := p.Field(PkgG, "Organism", "Species")
 		nCalls, nSt := 0, 0
 		for _, fn := range p.SrcFuncs() {
+			if fn != spec && fn != cfs && fn != add && expandedHelper(p, fn) {
+				// the declaration of a new private helper whose every call was expanded in place (source normalisation):
+				// nothing executes it; its statements are examined where they were expanded, as part of the caller
+				continue
+			}
 			// calls of addOrganism, and the helper's append written in place (the helper's own append is not a site: its callers are)
 			Instrs(fn, func(_ *ssa.BasicBlock, _ int, in ssa.Instruction) {
 				if m, _ := memberWrite(p, in); m != nil && fn != add {
